@@ -352,6 +352,10 @@ func (s *webServer) tokenExchangeHandler(w http.ResponseWriter, r *http.Request,
 		WriteError(w, r, oidc.ErrInvalidRequest().WithDescription("subject_token_type missing"), s.getLogger(r.Context()))
 		return
 	}
+	if request.ActorToken != "" && request.ActorTokenType == "" {
+		WriteError(w, r, oidc.ErrInvalidRequest().WithDescription("actor_token_type missing"), s.getLogger(r.Context()))
+		return
+	}
 	if !request.SubjectTokenType.IsSupported() {
 		WriteError(w, r, oidc.ErrInvalidRequest().WithDescription("subject_token_type is not supported"), s.getLogger(r.Context()))
 		return
